@@ -8,6 +8,9 @@ Conventions of the model
   `e.buf[i] = v` goes through `Enc.set`, which sets the sticky flag `oob` instead of storing when
   `i` is not a valid index — this is Go's index-out-of-range panic.  Slice expressions with a bad
   bound (`e.buf[a:b]`, `pix[y*stride:]`, `row[:k*width]`) set the same flag.
+* The slice `pix` is the pair (`pix : Array UInt8`, `plen : Nat`): the array holds the `cap(pix)` bytes
+  of the backing store from the slice's start, `plen` is `len(pix)` (`≤ pix.size`).  Go checks the low
+  bound of `pix[y*stride:]` against the length and the high bound of `row[:k*width]` against the capacity.
 * The `io.Writer` is a `Writer`: it records the byte slice of every `Write` call and returns an
   error on call number `failAt` (if any).  `Encode` ignores the returned count, as the Go code does.
 * The six unrolled pixel loops of `Encode` differ only in (`n` = bytes stored per pixel, `k` = bytes
@@ -213,20 +216,21 @@ def loopParams (depth colorType : UInt8) : Nat × Nat :=
   else (0, 0)
 
 /-- `for y := 0; y < height; y++ { … }`, `rows` iterations left. -/
-def rowLoop (pix : Array UInt8) (width : Nat) (stride : Int) (n k : Nat) : Nat → Nat → LoopSt → LoopSt
+def rowLoop (pix : Array UInt8) (plen width : Nat) (stride : Int) (n k : Nat) : Nat → Nat → LoopSt → LoopSt
   | 0, _, s => s
   | rows + 1, y, s =>
     let s := reserve s 1
     if s.ok then
       -- e.buf[ej+0] = 0 // PNG 'none' filter.
       let e := s.e.set s.ej 0
-      -- row := pix[y*stride:]; row = row[:k*width]   (len(pix) == cap(pix) assumed)
+      -- row := pix[y*stride:]    needs 0 ≤ low ≤ len(pix)
+      -- row = row[:k*width]      needs high ≤ cap(row) = cap(pix) - low
       let off : Int := wrapInt64 ((y : Int) * stride)
-      if off < 0 ∨ off + ((k * width : Nat) : Int) > (pix.size : Int) then
+      if off < 0 ∨ off > (plen : Int) ∨ off + ((k * width : Nat) : Int) > (pix.size : Int) then
         ⟨{ e with oob := true }, s.w, s.ej + 1, false⟩
       else
         let s := pixLoop pix n k width off.toNat ⟨e, s.w, s.ej + 1, true⟩
-        if s.ok then rowLoop pix width stride n k rows (y + 1) s else s
+        if s.ok then rowLoop pix plen width stride n k rows (y + 1) s else s
     else s
 
 inductive Status where
@@ -239,7 +243,7 @@ structure Result where
   status : Status
 
 /-- `func (e *Encoder) Encode(w, pix, width, height, stride, depth, colorType) error` -/
-def encode (e : Enc) (w : Writer) (pix : Array UInt8) (width height stride : Int)
+def encode (e : Enc) (w : Writer) (pix : Array UInt8) (plen : Nat) (width height stride : Int)
     (depth colorType : UInt8) : Result :=
   if width < 0 ∨ height < 0 ∨ (depth ≠ 8 ∧ depth ≠ 16) ∨ pngFileFormatEncoding colorType = 0xFF then
     ⟨e, w, .invalidArgument⟩
@@ -248,7 +252,7 @@ def encode (e : Enc) (w : Writer) (pix : Array UInt8) (width height stride : Int
   else
     let e := init e width.toNat height.toNat depth colorType
     let p := loopParams depth colorType
-    let s := rowLoop pix width.toNat stride p.1 p.2 height.toNat 0 ⟨e, w, eiFirst, true⟩
+    let s := rowLoop pix plen width.toNat stride p.1 p.2 height.toNat 0 ⟨e, w, eiFirst, true⟩
     if s.ok then
       let r := flush s.e s.w s.ej true
       ⟨r.e, r.w, if r.e.oob then .panic else if r.ok then .ok else .writeError⟩
